@@ -16,6 +16,9 @@ example : judgeEv [.malformed "x"] ≠ [] := by decide
 example : judgeEv [.unexpected "x"] ≠ [] := by decide
 example : judgeEv [.crash "crash SIGSEGV"] ≠ [] := by decide
 example : judgeEv [.sanitizer "sanitizer heap-use-after-free"] ≠ [] := by decide
+example : (judgeEv [.sanitizer "sanitizer x", .crash "crash exit 1"]).length = 1 := by decide      -- one incident, one verdict
+example : (judgeEv [.sanitizer "sanitizer x", .tickbegin 1, .crash "crash exit 1"]).length = 1 := by decide
+example : (judgeEv [.tickbegin 1, .tickbegin 1, .crash "crash exit 1"]).length = 2 := by decide     -- a crash of its own
 
 /-! fires exactly once, not early, by the first tick at or after its time -/
 example : judgeEv [sch 0 1 0 5 "a" 37, .tickbegin 5, .tickend 5] ≠ [] := by decide                       -- missed
@@ -121,21 +124,24 @@ example : judgeEv [.co 0 1 0 5 "a" 37 true none, .info 2 [(1, 0, 3)]] = [] := by
 example : judgeEv [sch 0 1 0 5 "a" 37, .dest 1 2 1, .info 2 [(1, 1, 3)]] ≠ [] := by decide                -- destructed owner listed
 example : judgeEv [sch 0 1 0 2147483648 "a" 37, .info 0 [(1, 1, -2147483648)]] ≠ [] := by decide         -- info is not converted
 
+/-- the regenerated `CHUNK_SIZE` (the examples are stated relative to it) -/
+private abbrev CH : Nat := Gen.C10.chunkSize
+
 /-! print_call_out_usage: current length = number of pending call_outs; num_call = whole chunks, covers what is in
     use, never more than one chunk above the largest number ever in use (a leaked structure shows up here) -/
 example : judgeEv [.usage 0 0 0] = [] := by decide
-example : judgeEv [sch 0 1 0 5 "a" 37, .usage 0 20 1] = [] := by decide
-example : judgeEv [sch 0 1 0 5 "a" 37, .usage 0 20 0] ≠ [] := by decide                                   -- a pending one not counted
-example : judgeEv [sch 0 1 0 5 "a" 37, .usage 0 20 2] ≠ [] := by decide                                   -- counted twice
-example : judgeEv [sch 0 1 0 5 "a" 37, .rmh 1 1 "a" 4, .usage 1 20 1] ≠ [] := by decide                   -- removed but still counted
+example : judgeEv [sch 0 1 0 5 "a" 37, .usage 0 CH 1] = [] := by decide
+example : judgeEv [sch 0 1 0 5 "a" 37, .usage 0 CH 0] ≠ [] := by decide                                   -- a pending one not counted
+example : judgeEv [sch 0 1 0 5 "a" 37, .usage 0 CH 2] ≠ [] := by decide                                   -- counted twice
+example : judgeEv [sch 0 1 0 5 "a" 37, .rmh 1 1 "a" 4, .usage 1 CH 1] ≠ [] := by decide                   -- removed but still counted
 example : judgeEv [sch 0 1 0 5 "a" 37, .usage 0 0 1] ≠ [] := by decide                                    -- fewer allocated than in use
-example : judgeEv [sch 0 1 0 5 "a" 37, .usage 0 19 1] ≠ [] := by decide                                   -- not a whole chunk
-example : judgeEv [sch 0 1 0 5 "a" 37, .usage 0 40 1] ≠ [] := by decide                                   -- a chunk nobody needed (leak)
-example : judgeEv [sch 0 1 0 5 "a" 37, .tickbegin 5, .fire 5 1 0 "a" none, .usage 5 20 0, .tickend 5, .usage 5 20 0] = [] := by
+example : judgeEv [sch 0 1 0 5 "a" 37, .usage 0 (CH - 1) 1] ≠ [] := by decide                                   -- not a whole chunk
+example : judgeEv [sch 0 1 0 5 "a" 37, .usage 0 (2 * CH) 1] ≠ [] := by decide                                   -- a chunk nobody needed (leak)
+example : judgeEv [sch 0 1 0 5 "a" 37, .tickbegin 5, .fire 5 1 0 "a" none, .usage 5 CH 0, .tickend 5, .usage 5 CH 0] = [] := by
   decide
-example : judgeEv [sch 0 1 0 5 "a" 37, .dest 1 2 1, .usage 1 20 1, .tickbegin 5, .tickend 5, .usage 5 20 0] = [] := by
+example : judgeEv [sch 0 1 0 5 "a" 37, .dest 1 2 1, .usage 1 CH 1, .tickbegin 5, .tickend 5, .usage 5 CH 0] = [] := by
   decide                                                                                                -- dropped at its time
-example : judgeEv [sch 0 1 0 5 "a" 37, .dest 1 2 1, .tickbegin 5, .usage 5 20 1, .tickend 5] = [] := by decide  -- or not yet
-example : judgeEv [sch 0 1 0 5 "a" 37, .dest 1 2 1, .usage 1 20 0] ≠ [] := by decide                      -- too early to drop
+example : judgeEv [sch 0 1 0 5 "a" 37, .dest 1 2 1, .tickbegin 5, .usage 5 CH 1, .tickend 5] = [] := by decide  -- or not yet
+example : judgeEv [sch 0 1 0 5 "a" 37, .dest 1 2 1, .usage 1 CH 0] ≠ [] := by decide                      -- too early to drop
 
 end NV.C10
